@@ -256,6 +256,7 @@ using namespace c14c;
 """)
     cu.add("convert|other-policy", "a virtual_ptr of one policy is not convertible to a virtual_ptr of another policy (same-named methods of two policies stay distinct overloads)",
            "static_assert(!std::is_convertible_v<virtual_ptr<B, PA>, virtual_ptr<A, PB>> && !std::is_convertible_v<virtual_ptr<A, PA>, virtual_ptr<A, PB>> && !std::is_convertible_v<virtual_ptr<std::shared_ptr<B>, PA>, virtual_ptr<std::shared_ptr<A>, PB>>);")
+    cu.add("convert|other-policy|value-categories", "... whatever the value category and constness of the source", "static_assert(!std::is_convertible_v<const virtual_ptr<B, PA>&, virtual_ptr<A, PB>> && !std::is_convertible_v<virtual_ptr<B, PA>&, virtual_ptr<A, PB>> && !std::is_convertible_v<const virtual_ptr<B, PA>, virtual_ptr<A, PB>> && !std::is_convertible_v<const virtual_ptr<std::shared_ptr<B>, PA>&, virtual_ptr<std::shared_ptr<A>, PB>>);")
     cu.add("convert|same-policy", "within a policy a virtual_ptr to a derived class still converts to a virtual_ptr to its base",
            "static_assert(std::is_convertible_v<virtual_ptr<B, PA>, virtual_ptr<A, PA>> && std::is_convertible_v<virtual_ptr<std::shared_ptr<B>, PA>, virtual_ptr<std::shared_ptr<A>, PA>>);")
     cu.add("convert|object", "a virtual_ptr is still constructible from an object of its class or of a derived class",
